@@ -35,6 +35,34 @@ def creation_calls(f):
     return out
 
 
+def buffer_arg(call):
+    """the buffer handed to ndarray.__new__(subtype, shape, dtype, buffer): fourth positional argument or the keyword"""
+    if len(call.args) > 3:
+        return call.args[3]
+    for k in call.keywords:
+        if k.arg == "buffer":
+            return k.value
+    return None
+
+
+def view_casts(f):
+    """`X.view(subtype)` with the constructor's own first parameter: the instance is made by view casting.  -> [(call, base expression stripped of copies)]"""
+    out = []
+    for n in ast.walk(f.node):
+        if isinstance(n, ast.Call) and isinstance(n.func, ast.Attribute) and n.func.attr == "view" and n.args and isinstance(n.args[0], ast.Name) \
+                and f.params and n.args[0].id == f.params[0]:
+            base = n.func.value
+            while True:
+                if isinstance(base, ast.Call) and isinstance(base.func, ast.Attribute) and base.func.attr == "copy" and not base.args:
+                    base = base.func.value
+                elif isinstance(base, ast.Call) and ast.unparse(base.func).split(".")[-1] in ("array", "asarray", "copy", "ascontiguousarray") and base.args:
+                    base = base.args[0]
+                else:
+                    break
+            out.append((n, base))
+    return out
+
+
 def _c_float_buffer(node):
     """np.ascontiguousarray(x, dtype=float) / np.array(x, dtype=float, order='C') / np.require(x, float, 'C'): a C-ordered float64 array whatever x was"""
     if not isinstance(node, ast.Call):
@@ -120,7 +148,7 @@ def shadow_init(chk, f):
              and s_.value.func.attr == "view" and len(s_.targets) == 1 and isinstance(s_.targets[0], ast.Name)]
     if attr is None or not (creates or views):
         return
-    bufs = {ast.unparse(c.args[3]) for c in creates if len(c.args) > 3}
+    bufs = {ast.unparse(buffer_arg(c)) for c in creates if buffer_arg(c) is not None}
     objs = set()
     for v in views:
         objs.add(v.targets[0].id)
@@ -156,14 +184,31 @@ def quat_ctor(chk, prog, ref, versor_param):
 
         def on_call(fa, node, st):
             if node in creates:
-                buf = node.args[3] if len(node.args) > 3 else None
-                seen.append((node, buf, dict(st), fa))
+                seen.append((node, buffer_arg(node), dict(st), fa))
+            for vc, base in casts:
+                if node is vc:
+                    seen.append((node, base, dict(st), fa, "view"))
         creates = creation_calls(f)
-        if not creates:
-            chk.error("CTOR-GATE: no ndarray.__new__ call found in %s" % ref)
+        casts = view_casts(f)
+        if not creates and not casts:
+            chk.error("CTOR-GATE: no ndarray.__new__ call or view cast found in %s" % ref)
             return
 
         class G(LayoutFacts):
+            def bind(self2, t, value_node, val, st, stmt):
+                # the shape gate passed by X still holds for a plain alias of X and for a layout / dtype conversion of X (ascontiguousarray, asarray, array)
+                src = None
+                if isinstance(t, ast.Name):
+                    if isinstance(value_node, ast.Name):
+                        src = value_node.id
+                    elif isinstance(value_node, ast.Call) and ast.unparse(value_node.func).split(".")[-1] in ("ascontiguousarray", "asarray", "array", "copy", "require") \
+                            and value_node.args and isinstance(value_node.args[0], ast.Name):
+                        src = value_node.args[0].id
+                carry = [k for k in ("SHAPECHK", "RANK1") if src is not None and (k, src) in st["F"]]
+                super().bind(t, value_node, val, st, stmt)
+                for k in carry:
+                    self2.add(st, k, t.id)
+
             def refine(self2, test, st, truth):
                 super().refine(test, st, truth)
                 # shape gate: `x.ndim != k or x.shape[-1] not in [...]` being False
@@ -180,8 +225,10 @@ def quat_ctor(chk, prog, ref, versor_param):
         if not seen:
             chk.error("CTOR-GATE: creation call of %s not reached with %s=%s" % (ref, versor_param, versor))
             continue
-        for node, buf, st, fa2 in seen:
-            if versor:
+        for node, buf, st, fa2, *kind in seen:
+            if versor and kind:
+                chk.record("BUFFER-LAYOUT", "%s::view cast" % f.ref, "the instance is made by view casting: dtype and strides travel with the array, no raw buffer is reinterpreted")
+            elif versor:
                 buffer_layout(chk, f, node, buf, st)
             site = "%s::create[%s=%s]" % (ref, versor_param, versor)
             name = buf.id if isinstance(buf, ast.Name) else None
@@ -219,8 +266,7 @@ def dcm_ctor(chk, prog):
         if isinstance(fn, ast.Name) and fn.id == "_assert_SO3" and node.args:
             fa.add(st, "SO3CHK", fa.vn(node.args[0], st))
         if node in creates:
-            buf = node.args[3] if len(node.args) > 3 else None
-            seen.append((node, buf, dict(st), fa))
+            seen.append((node, buffer_arg(node), dict(st), fa))
         # view casting: X.view(subtype) makes the instance over X's values (NumPy carries dtype and strides along: nothing is reinterpreted)
         if isinstance(fn, ast.Attribute) and fn.attr == "view" and node.args and isinstance(node.args[0], ast.Name) and f.params and node.args[0].id == f.params[0]:
             base = fn.value
